@@ -44,6 +44,9 @@ def plan(tier, seed):
     n = 6
     shards += [{"kind": "histories", "count": 40 if tier == "quick" else 1200, "length": 40 if tier == "quick" else 120,
                 "cs": seed * 100 + i, "threaded": i % 3 == 2} for i in range(n)]
+    # long-running consumers: the log keeps one entry per frame however many there are
+    shards += [{"kind": "histories", "count": 2 if tier == "quick" else 12, "length": 700 if tier == "quick" else 3000,
+                "cs": seed * 100 + 50, "threaded": False}]
     shards += [{"kind": "waits", "rounds": 6 if tier == "quick" else 40, "cs": seed}]
     return shards
 
